@@ -420,11 +420,16 @@ def rule_mirexconst(ctx):
     one = [idx for idx, val in stores if is_lit(val) and lit(val) == 1]
     # skip threshold equals the hit threshold
     skip_thr = None
+    lower_ok = False
     for sk in skip:
         for x in tm.walk(sk):
             if x.op == "cmp" and x.a[0] == "<" and is_lit(x.a[2]) and x.a[1].op == "call" and call_name(x.a[1]) == "np.sum":
                 skip_thr = lit(x.a[2])
-    yield ob("C11.MIREXCONST", f, "chord.mirex:skip-threshold", skip_thr is not None and skip_thr == thr, "references with 1..%s-1 pitch classes are skipped; same constant as the hit threshold (%r)" % (skip_thr, thr))
+            if x.op == "cmp" and x.a[0] == "<" and tm.is_const(x.a[1], 0) and x.a[2].op == "call" and call_name(x.a[2]) == "np.sum":
+                lower_ok = True
+            if x.op == "cmp" and x.a[0] == "<=" and tm.is_const(x.a[1], 1) and x.a[2].op == "call" and call_name(x.a[2]) == "np.sum":
+                lower_ok = True
+    yield ob("C11.MIREXCONST", f, "chord.mirex:skip-threshold", skip_thr is not None and skip_thr == thr and lower_ok, "references with 1..%s-1 pitch classes are skipped (count > 0 and count < threshold); same constant as the hit threshold (%r)" % (skip_thr, thr))
     xm = any(any(xmask_of(x) for x in tm.walk(sk)) for sk in skip)
     yield ob("C11.MIREXCONST", f, "chord.mirex:x-skipped", xm, "X references (negative bitmap) are skipped")
     nn = False
@@ -440,7 +445,17 @@ def rule_mirexconst(ctx):
     yield ob("C11.MIREXCONST", f, "chord.mirex:store-order", order_ok, "the ignore store is the last store")
 
 
+def rule_encodepure(ctx):
+    """Shared with C10/C15: encoding a label never writes a module-level table, so a comparison cannot depend on earlier calls."""
+    from . import c10
+
+    for o in c10.rule_tablesafe(ctx):
+        o.rule = "C11.ENCODEPURE"
+        yield o
+
+
 RULES = [
+    ("C11.ENCODEPURE", 9, rule_encodepure),
     ("C11.CONJ", 36, rule_conj),
     ("C11.MASKREFONLY", 14, rule_maskrefonly),
     ("C11.MASKINCL", 8, rule_maskincl),
